@@ -34,6 +34,8 @@ type PktCfg struct {
 	Rules     [][]string
 	AdvBatch  int           // variants per adversarial batch (0 = all)
 	Delay     time.Duration // confirmation delay of the Tendermint clients (0 = none)
+	// NoFieldEdits leaves out the port / relay-chain alterations (C13's subject).
+	NoFieldEdits bool
 }
 
 // DefaultPktCfg is the balanced workload.
@@ -450,13 +452,18 @@ func (s *PktSim) Variants(base *Action) []*Action {
 		}
 		// field edits judged by C13
 		ports := []string{"NFT", "MT", MockPort, "unknownport"}
+		if s.Cfg.NoFieldEdits {
+			ports = nil
+		}
 		for _, pt := range ports {
 			if pt != p.Port {
 				pt := pt
 				add("port="+pt, func(a *Action) { a.Packet.Port = pt })
 			}
 		}
-		if p.RelayChain != "" {
+		if s.Cfg.NoFieldEdits {
+			// nothing
+		} else if p.RelayChain != "" {
 			add("relay-removed", func(a *Action) { a.Packet.RelayChain = "" })
 			add("relay-replaced", func(a *Action) { a.Packet.RelayChain = s.otherChain(p.SourceChain, p.DestinationChain, p.RelayChain) })
 		} else {
@@ -508,7 +515,7 @@ func (s *PktSim) Variants(base *Action) []*Action {
 		}
 	}
 	// relay-field edits with the proof rebuilt from the chain the edited message is verified against
-	if base.Packet != nil {
+	if base.Packet != nil && !s.Cfg.NoFieldEdits {
 		p := base.Packet
 		reprove := func(a *Action, e *vnet.Chain) bool {
 			if e == nil || e == a.On || !HasClient(a.On, e.Name) || !s.W.Fresh(a.On, e) {
